@@ -4,12 +4,16 @@
 cd /verif
 for d in /verif/seeded/*/; do
   n=$(basename $d)
-  checks=$(python3 -c "import json;print(' '.join(json.load(open('$d/meta.json'))['caught_by']))")
-  if ! git -C /repo apply --check $d/patch.diff 2>/dev/null; then echo "RECHECK $n: patch no longer applies to the current tree"; continue; fi
+  checks=$(python3 -c "import json;print(' '.join(json.load(open('/verif/seeded/$n/meta.json'))['caught_by']))")
+  if ! git -C /repo apply --check $d/patch.diff 2>/dev/null; then
+    if [ -f $d/patch.rebased.diff ] && git -C /repo apply --check $d/patch.rebased.diff 2>/dev/null; then
+      mkdir -p /verif/out/rebased-$n; cp $d/patch.rebased.diff /verif/out/rebased-$n/patch.diff; d=/verif/out/rebased-$n/; rebased=" (rebased patch)"
+    else echo "RECHECK $n: patch no longer applies to the current tree"; continue; fi
+  else rebased=""; fi
   res=""
   for c in $checks; do
     out=$(tools/run_seeded.sh $d $c 2>&1 | grep "^SEEDED" | sed 's/.*rc=//')
     res="$res $c:rc=$out"
   done
-  echo "RECHECK $n:$res"
+  echo "RECHECK $n$rebased:$res"
 done
